@@ -785,8 +785,10 @@ LOOP:
 			goto LOOP
 		}
 		token = z.b[i]
+		z.c = i + 1
+	} else {
+		z.c = i // end of input: no token was consumed
 	}
-	z.c = i + 1
 	bs = z.b[start:i] // byteSliceOf(z.b, start, i)
 	return
 }
